@@ -76,12 +76,15 @@ class RawWriter(io.RawIOBase):
 
     def write(self, b):
         b = bytes(b)
+        if getattr(self, 'dead', False):
+            return len(b)      # the process is gone: close()/finalizer chains of the io stack must not reach the disk
         self.calls += 1
         self.f.stats['raw_writes'] += 1
         p = self.plan
         if p.get('crash_at') == self.calls:
             k = int(len(b) * p.get('crash_part', 0.5))
             self.f.data += b[:k]
+            self.dead = True
             raise SimCrash()
         if p.get('error_at') == self.calls:
             self.f.stats['write_errors'] += 1
